@@ -211,6 +211,87 @@ mod m {
     return out
 
 
+# ---- impl matching: every impl target pattern x every pair of use-site type arguments, decided by unification -----
+
+def _parse_ty(t):
+    t = t.strip()
+    if t.startswith("Option[") and t.endswith("]"):
+        return ("opt", _parse_ty(t[7:-1]))
+    if t in ("T", "U"):
+        return ("var", t)
+    return ("con", t)
+
+
+def _unify(pat, ty, env):
+    if pat[0] == "var":
+        if pat[1] in env:
+            return env[pat[1]] == ty
+        env[pat[1]] = ty
+        return True
+    if pat[0] == "con":
+        return pat == ty
+    return ty[0] == "opt" and _unify(pat[1], ty[1], env)
+
+
+def impl_matching_programs(quick):
+    pats = [("T", "T"), ("T", "U"), ("T", "Int64"), ("Int64", "T"), ("Option[T]", "T"), ("T", "Option[T]"),
+            ("Option[T]", "Option[U]"), ("Option[T]", "Option[T]")]
+    uses = ["Int64", "String", "Option[Int64]", "Option[String]"]
+    val = {"Int64": "1", "String": "\"s\"", "Option[Int64]": "Some[Int64](1)", "Option[String]": "Some[String](\"s\")"}
+    goods, out = [], []
+    for pa, pb in pats:
+        tparams = sorted(set(x for x in ("T", "U") if x in pa or x in pb))
+        decl = ("trait Foo { fn foo(): Int64; }\nclass Pair[A, B] { a: A, b: B }\n"
+                "impl[%s] Foo for Pair[%s, %s] { fn foo(): Int64 { 1 } }\n"
+                "fn need[X: Foo](x: X): Int64 { x.foo() }\n" % (", ".join(tparams), pa, pb))
+        muts = []
+        good_prog = None
+        for ua in uses:
+            for ub in uses:
+                env = {}
+                ok = _unify(_parse_ty(pa), _parse_ty(ua), env) and _unify(_parse_ty(pb), _parse_ty(ub), env)
+                for how, use in (("bound", "need[Pair[%s, %s]](p)" % (ua, ub)), ("method", "p.foo()")):
+                    prog = decl + MAIN % ("  let p = Pair[%s, %s](a = %s, b = %s);\n  println(\"${%s}\");" % (ua, ub, val[ua], val[ub], use))
+                    if ok:
+                        if good_prog is None:
+                            good_prog = prog
+                        goods.append((prog, []))
+                    else:
+                        muts.append(("trait_bound", prog, "impl Foo for Pair[%s, %s] used (%s) with Pair[%s, %s]" % (pa, pb, how, ua, ub)))
+        if good_prog is not None:
+            out.append((good_prog, muts))
+    return out + (goods if not quick else goods[::4])
+
+
+# ---- definite return: every statement list up to length 2 over returning / possibly-returning statements ----------
+
+RET_STMTS = [("return 1;", True), ("if c { return 1; }", False), ("if c { return 1; } else { return 2; }", True),
+             ("while c { return 1; }", False), ("for i in std::range(0, n) { return i; }", False),
+             ("match e { RE::A => { return 1; }, RE::B => { return 2; } }", True),
+             ("match e { RE::A => { return 1; }, RE::B => { } }", False), ("{ return 1; }", True), ("let y = n;", False),
+             ("if c { return 1; } else if n > 1 { return 2; } else { return 3; }", True),
+             ("for i in std::range(0, n) { if c { return i; } }", False)]
+
+
+def definite_return_programs(quick):
+    """A non-unit function without tail value is well typed iff one of its statements returns on every path."""
+    out = []
+    seqs = [(a,) for a in RET_STMTS] + list(itertools.product(RET_STMTS, RET_STMTS))
+    tmpl = ("enum RE { A, B }\nfn f(c: Bool, n: Int64, e: RE): Int64 {\n  %s\n}\n" +
+            MAIN % "  println(\"${f(true, 1, RE::A)} ${f(false, 2, RE::B)}\");")
+    good_base = tmpl % "return 1;"
+    muts = []
+    for seq in seqs:
+        prog = tmpl % "\n  ".join(s for s, _ in seq)
+        if any(r for _, r in seq):
+            out.append((prog, []))
+        else:
+            muts.append(("missing_return", prog, "no statement of %r returns on every path" % (tuple(s for s, _ in seq),)))
+    out.append((good_base, muts))
+    return out
+
+
 def all_programs(quick=True):
-    progs = order_programs(quick) + ctrl_programs(quick) + feature_programs()
+    progs = order_programs(quick) + ctrl_programs(quick) + feature_programs() + impl_matching_programs(quick) + \
+        definite_return_programs(quick)
     return progs
